@@ -146,5 +146,35 @@ Conf_CustomGas ==
              /\ StateDiff([r.st EXCEPT !.rewardPool = (@ -- price) ++ sl.out], st') = {},
           [at |-> WhereTx, gas |-> Tx.gasCoin, pool |-> st.pools[FeePool], poolAfter |-> st'.pools[FeePool],
            fee |-> (IF HasTag("tx_commission_amount") THEN Tag("tx_commission_amount") ELSE "")])
-ConformanceStep == Conf_Code /\ Conf_State /\ Conf_Begin /\ Conf_End /\ Conf_Commit /\ Conf_Trade /\ Conf_Liquidity /\ Conf_CustomGas
+\* the same for a delivery that Run refuses (for a reason other than funds): the failed-transaction price is converted through the pool,
+\* capped at what the sender holds of the token; a delivery rejected before Run costs nothing
+CustomGasFailCovered ==
+   /\ Delivered /\ Tx.intact /\ Tx.mut = "" /\ Code # 0 /\ Code # 107 /\ "st" \in DOMAIN ev' /\ Tx.gasCoin # Base /\ st.priceCoin = Base
+   /\ Tx.gasCoin \in DOMAIN st.coins /\ st.coins[Tx.gasCoin].kind = "token"
+   /\ Cardinality(FeePools) = 1 /\ NoOrdersIn(FeePool) /\ FeePool \in DOMAIN st'.pools
+   /\ Tx.type # "RedeemCheck"
+   /\ (Supported(st, BaseTx) \/ StakingSupported(st, BaseTx) \/ CoinsSupported(st, BaseTx))
+   /\ (Tx.type \in {"CreateToken", "RecreateToken", "CreateCoin", "RecreateCoin"} => Code \notin {203, 204})
+Conf_CustomGasFail ==
+   Clause("DRIFT", "ModelPredictsFailedDeliveryPaidThroughPool", CustomGasFailCovered,
+          LET q == st.pools[FeePool]
+              fwd == q.c0 = Tx.gasCoin
+              rG == IF fwd THEN q.r0 ELSE q.r1
+              rB == IF fwd THEN q.r1 ELSE q.r0
+              \* which code, and whether Run was reached at all: the base-coin model on a state in which the sender can pay
+              rich == AddBal(st, Tx.sender, Base, BasePriceOfTx ++ FailPriceFor(st, BaseTx))
+              r == RunTxC(rich, BaseTx, H, Cfg, NodeLimits)
+              early == r.fee = Zero /\ r.st = rich
+              want == PL!BuyTrade(rG, rB, FailPriceFor(st, BaseTx))
+              have == Bal(st, Tx.sender, Tx.gasCoin)
+              pay == IF want.ok /\ want.pay \preceq have THEN want.pay ELSE have
+              sl == PL!SellTrade(rG, rB, pay)
+              p2 == [q EXCEPT !.r0 = IF fwd THEN rG ++ sl.net ELSE rB -- sl.out, !.r1 = IF fwd THEN rB -- sl.out ELSE rG ++ sl.net]
+              charged == AddPool(AddBal(SubBal([st EXCEPT !.pools[FeePool] = p2], Tx.sender, Tx.gasCoin, pay), BurnAccount, Tx.gasCoin, sl.burned), sl.out)
+          IN /\ r.code = Code
+             /\ IF early \/ pay = Zero THEN StateDiff(st, st') = {}
+                ELSE sl.ok /\ StateDiff(charged, st') = {},
+          [at |-> WhereTx, gas |-> Tx.gasCoin, pool |-> st.pools[FeePool], poolAfter |-> st'.pools[FeePool],
+           fee |-> (IF HasTag("tx_fail_fee") THEN Tag("tx_fail_fee") ELSE "")])
+ConformanceStep == Conf_Code /\ Conf_State /\ Conf_Begin /\ Conf_End /\ Conf_Commit /\ Conf_Trade /\ Conf_Liquidity /\ Conf_CustomGas /\ Conf_CustomGasFail
 =============================================================================
